@@ -139,4 +139,18 @@ QueriesS ==
   \cup {QBin("+", VM("on", <<"name">>, "left"), Plain(Sel("m", <<>>)), Opnd("sum", G("by", <<"name">>), Sel("n", <<>>))),
         QBin("+", VM("on", <<"hostname">>, "left"), Plain(Sel("m", <<>>)), Opnd("sum", G("by", <<"hostname">>), Sel("n", <<>>))),
         QBin("-", DefVM, Plain(Sel("m", <<>>)), Plain(Sel("n", <<>>)))}
+
+(* ---------------------------------------------------------------- universe D (label values with a non-word character) *)
+UD == << Ser("m", [a |-> "e-1", b |-> "p"]), Ser("m", [a |-> "e-2", b |-> "p"]), Ser("m", [a |-> "e-2", b |-> "q"]),
+         Ser("n", [a |-> "e-1", b |-> "p"]), Ser("n", [a |-> "e-2", b |-> "p"]), Ser("n", [a |-> "e-2", b |-> "q"]) >>
+TailsD == {"", "1", "2", "-1", "-2", "e-1", "e-2", "p", "q"}
+ScenD == {S \in SUBSET (1 .. 6) : Cardinality(S) \in {3, 4} /\ Cardinality(S \cap (1 .. 3)) >= 2 /\ Cardinality(S \cap (4 .. 6)) >= 1}
+QueriesD ==
+  {QVec(Plain(Sel("m", <<>>))), QVec(Plain(Sel("m", <<M("a", "=", Lit("e-1"))>>))), QVec(Plain(Sel("m", <<M("a", "=~", Pre("e-"))>>))),
+   QVec(Plain(Sel("m", <<M("a", "!=", Lit("e-2"))>>)))}
+  \cup {QVec(Opnd(op, g, Sel("m", <<>>))) : op \in {"sum", "count"}, g \in {G("by", <<"a">>), G("without", <<"a">>), G("without", <<"b">>)}}
+  \cup {QBin(op, vm, Plain(Sel("m", <<>>)), Plain(Sel("n", <<>>))) : op \in {"+", "/"}, vm \in {DefVM, VM("on", <<"a", "b">>, "one")}}
+  \cup {QBin("+", VM("on", <<"a">>, "one"), SumBy("a", "m"), SumBy("a", "n")),
+        QBin("*", VM("on", <<"a">>, "left"), Plain(Sel("m", <<>>)), SumBy("a", "n")),
+        QBin("-", VM("ignoring", <<"b">>, "left"), Plain(Sel("m", <<>>)), SumBy("a", "n"))}
 =============================================================================
